@@ -6,6 +6,8 @@ import (
 	"strings"
 	"time"
 
+	"github.com/xujiajun/nutsdb"
+
 	"verifsim/core"
 	"verifsim/model"
 	"verifsim/prog"
@@ -50,8 +52,9 @@ func stripSnapFaults(p *prog.Program) *prog.Program {
 
 // judgeMode selects what is demanded of a mounted image.
 type judgeMode struct {
-	Recovery bool  // observation must equal S or S+T
-	OtherIdx []int // additionally open with these index modes (C22)
+	Recovery  bool    // observation must equal S or S+T
+	ContinueP float64 // share of images on which more is committed after recovery, followed by another Open
+	OtherIdx  []int   // additionally open with these index modes (C22)
 }
 
 // judgeSnapshots mounts every image in a fresh world, opens it with the
@@ -100,7 +103,21 @@ func judgeImage(r *run.Runner, sn *core.Snapshot, jm judgeMode) (viol []run.Viol
 		add("open-failed", errClass(err.Error()), "Open failed: %v", err)
 		return
 	}
-	defer func() { run.Safe(func() { db.Close() }) }()
+	defer func() {
+		if db != nil {
+			run.Safe(func() { db.Close() })
+		}
+	}()
+	defer func() {
+		// recover -> continue -> recover again, on a seeded share of the images
+		if len(viol) == 0 && jm.ContinueP > 0 && core.NewRng(sn.Digest).Bool(jm.ContinueP) {
+			core.Use(w)
+			db = continueAfterRecovery(db, r.DBOpt, r.P.Cfg.SegSize, add)
+			core.Use(r.W)
+			r.W.Stats.Probes["images-continued-and-reopened"]++
+			core.Use(w)
+		}
+	}()
 	if !jm.Recovery {
 		return
 	}
@@ -136,6 +153,63 @@ func judgeImage(r *run.Runner, sn *core.Snapshot, jm judgeMode) (viol []run.Viol
 	}
 	add("recovery", "mismatch", "recovered state differs from the acknowledged state: %v", errS)
 	return
+}
+
+// continueAfterRecovery writes a few more transactions on a database that was
+// just recovered from an image (sized so that the active segment rotates),
+// closes it and opens it again: recovery must also hold for what is written on
+// top of a recovered directory (a torn record that recovery stepped over must
+// not make a later Open fail once its segment is sealed).
+func continueAfterRecovery(db *nutsdb.DB, opt nutsdb.Options, seg int64, add func(class, sig, format string, args ...interface{})) *nutsdb.DB {
+	n := int(seg/2) - 60
+	if n < 1 {
+		n = 1
+	}
+	if n > 200 {
+		n = 200
+	}
+	val := []byte(strings.Repeat("c", n))
+	keys := []string{"c1", "c2", "c3"}
+	for _, k := range keys {
+		var err error
+		pan := run.Safe(func() {
+			err = db.Update(func(tx *nutsdb.Tx) error { return tx.Put("zz-cont", []byte(k), val, 0) })
+		})
+		if pan != "" {
+			add("open-panic", "continuation", "a commit after recovery panicked: %s", pan)
+			return nil
+		}
+		if err != nil {
+			add("recovery", "continuation-commit-failed", "a commit after recovery failed: %v", err)
+			return db
+		}
+	}
+	if pan := run.Safe(func() { db.Close() }); pan != "" {
+		add("open-panic", "continuation", "Close after recovery panicked: %s", pan)
+		return nil
+	}
+	core.W.Clock.Advance(time.Millisecond)
+	db2, err, pan := run.OpenDB(opt)
+	if pan != "" {
+		add("open-panic", "Open", "second Open after recovery + more commits panicked: %s", pan)
+		return nil
+	}
+	if err != nil {
+		add("open-failed", "second-open: "+errClass(err.Error()), "second Open (after recovery and %d more commits) failed: %v", len(keys), err)
+		return nil
+	}
+	for _, k := range keys {
+		var e *nutsdb.Entry
+		var gerr error
+		run.Safe(func() {
+			db2.View(func(tx *nutsdb.Tx) error { e, gerr = tx.Get("zz-cont", []byte(k)); return nil })
+		})
+		if gerr != nil || e == nil || string(e.Value) != string(val) {
+			add("recovery", "continuation-lost", "a transaction committed after recovery is not readable after the next Open (key %s: %v)", k, gerr)
+			break
+		}
+	}
+	return db2
 }
 
 // crashExec runs p taking images per policy (or only the explicit snapshot
